@@ -68,6 +68,14 @@ def main():
     lines.append(f"missed by every check: {missed}")
     (SEEDED / "MATRIX.md").write_text("\n".join(lines) + "\n")
     print("\n".join(lines))
+    if not only:
+        # frozen expectations for the self-test: own property for independently written changes, every catching check for fix reversals
+        exp = {}
+        for sid in sids:
+            fires = [p for p in props if table[sid][p]["verdict"] == "FIRES"]
+            if fires:
+                exp[sid] = fires
+        (SEEDED / "EXPECT.json").write_text(json.dumps(exp, indent=0))
 
 
 if __name__ == "__main__":
